@@ -47,3 +47,27 @@ def Cfg.noPeekPop (cfg : Cfg) (p : Prog) : Prop :=
   p.noPeekPop = true ∧ ∀ q ∈ cfg.env, q.noPeekPop = true
 
 end PestModel.PS
+
+namespace PestModel.PS
+
+/-- forget the detailed-attempts component (what a run with error detail off carries). -/
+def PState.eraseDetail (s : PState) : PState :=
+  { s with pa := { enabled := false, callStacks := [], expected := [], unexpected := [], maxPos := 0 } }
+
+/-- forget the call counter (what a run without call limit carries). -/
+def PState.eraseCalls (s : PState) : PState := { s with calls := none }
+
+def Out.mapState (f : PState → PState) : Out → Out
+  | .ok s => .ok (f s)
+  | .err s => .err (f s)
+  | .panic => .panic
+  | .fuel => .fuel
+
+/-- the report with the limit case projected away: what the caller of `pest::state` sees apart
+from the call-limit error. -/
+def plainReport : Out → Option Report
+  | .ok s => some (.success s.queue)
+  | .err s => some (.parsingError s.attemptPos (sortDedup s.posAtt) (sortDedup s.negAtt))
+  | _ => none
+
+end PestModel.PS
